@@ -146,7 +146,7 @@ def run(prop, tier, seed, work):
     res = suite.Result(prop, tier, seed)
     rng = random.Random(seed * 4241 + 7)
     quick = tier == "quick"
-    defs, plan = invalid_universe(rng, copies=1 if quick else 3)
+    defs, plan = invalid_universe(rng, copies=1 if quick else 8)
     scen = []
     entries = ["size", "encode", "decode"]
     okval = lambda s: U.base_value({"k": "struct", "ptr": False, "s": s}, defs, 2, 1)
